@@ -43,12 +43,14 @@ MANIFEST = {
     "text": ("Lean 4 theorems about a rule-by-rule model of rec_lambda!/_rec_lambda_0_/_1_/_2_ and the local call macro on abstract token "
              "streams: for ANY number of captures in any &/&mut interleaving (incl. none), any number >= 1 of arguments, with/without return "
              "type, both call syntaxes, pairwise distinct names: the expansion never gets stuck and ends after |caps|+|args|+2 steps "
-             "(expand_total); the inner fn's parameter list, the recursive call's tail and the closure's tail are the same list (shared "
+             "(expand_total); the two arms of the local call macro, run as matchers on the call's tokens, reach the same inner call for both call "
+             "syntaxes and every arity (call_total; the evaluator goes through them); the inner fn's parameter list, the recursive call's tail and the closure's tail are the same list (shared "
              "reversed, then mutable reversed) containing every capture exactly once with its declared mutability (wiring_consistent); "
              "positional binding gives every captured name back to that very variable (rebinds_self); for every abstract body (interaction "
-             "tree reading names, writing mutable captures, calling itself), fuel, arguments and store the generated closure and the explicit "
+             "tree reading names, writing mutable captures, calling itself in either call syntax), fuel, arguments and store the generated closure and the explicit "
              "recursion return the same value and final store (generated_eq_explicit). PARTIAL: rustc itself is not modelled; compilation "
-             "and behaviour are checked on 496 shapes x 3 bodies of generated programs, and the model's wiring is compared with the real expansion."),
+             "and behaviour are checked on generated programs (thorough tier: all 496 shapes x 3 bodies + 384 larger shapes; quick tier: 160 shapes, 384 "
+             "instances), and the model's wiring is compared with the real expansion of every instance."),
     "note": ("Proof (partial). Proved: the macro wiring for unboundedly many captures/arguments and generated = explicit recursion in a small "
              "semantics of frames and references. Tested, not proved (named residue): rustc's macro matcher, type checker, borrow checker - "
              "every generated shape is compiled and run against a hand-written recursion (<= 4 captures, <= 4 arguments). Trusted: Lean kernel, "
@@ -69,22 +71,25 @@ def _gen():
     return mod
 
 
+def _strip_rust_comments(src):
+    import re
+    src = re.sub(r"/\*.*?\*/", " ", src, flags=re.S)
+    return re.sub(r"//[^\n]*", "", src)
+
+
 def extract(repo):
-    """Side conditions read from the macro source: the four macros exist with the number of arms the model has."""
+    """Side conditions read from the macro source (comments stripped): the public macro `rec_lambda` has the 2 arms the
+    model has, and there are three helper macros with 4, 3 and 1 arms (whatever they are called)."""
     import re
     problems = []
     params = {}
     path = os.path.join(repo, "rlib", "lambda", "src", "lib.rs")
     try:
-        src = open(path).read()
+        src = _strip_rust_comments(open(path).read())
     except OSError as e:
         return {}, [f"cannot read {path}: {e}"]
-    want = {"rec_lambda": 2, "_rec_lambda_0_": 4, "_rec_lambda_1_": 3, "_rec_lambda_2_": 1}
-    for name, arms in want.items():
-        m = re.search(r"macro_rules!\s*" + re.escape(name) + r"\s*\{", src)
-        if not m:
-            problems.append(f"macro {name} not found in rlib/lambda/src/lib.rs")
-            continue
+    arms = {}
+    for m in re.finditer(r"^\s*macro_rules!\s*(\w+)\s*\{", src, flags=re.M):
         # arms of the macro itself = `=>` at brace depth 1 of the definition
         depth, i, n = 0, m.end() - 1, 0
         while i < len(src):
@@ -98,9 +103,13 @@ def extract(repo):
             elif c == "=" and src[i:i + 2] == "=>" and depth == 1:
                 n += 1
             i += 1
-        params[f"arms_{name}"] = n
-        if n != arms:
-            problems.append(f"macro {name} has {n} arms, the Lean model (Model/Lambda.lean `step`) has {arms}")
+        arms[m.group(1)] = n
+    params["macro_arms"] = arms
+    if arms.get("rec_lambda") != 2:
+        problems.append(f"macro rec_lambda has {arms.get('rec_lambda')} arms in rlib/lambda/src/lib.rs, the Lean model (Model/Lambda.lean `step`) has 2")
+    helpers = sorted(n for k, n in arms.items() if k != "rec_lambda")
+    if helpers != [1, 3, 4]:
+        problems.append(f"helper macros have arm counts {helpers} (by name: {arms}), the Lean model (`step`) has munchers with 4, 3 and 1 arms")
     return params, problems
 
 
@@ -126,6 +135,8 @@ def extra(ctx):
     findings = []
     t0 = time.time()
     shapes = G.shapes_for_tier(tier)
+    if tier == "thorough" and len(shapes) != 31 * 16:
+        raise V.Machinery(f"thorough tier generated {len(shapes)} shapes instead of 496")
     instances = [(s, t) for s in shapes for t in range(G.TEMPLATES)]
     # quick: + every pattern of 3 and 4 captures with a reduced cross product; thorough: + 5 and 6 captures, up to 6 arguments
     beyond = G.beyond_shapes(len(shapes)) if tier == "thorough" else G.quick_wide_shapes(len(shapes))
@@ -175,18 +186,34 @@ def extra(ctx):
         if ok:
             break
         bad = {}
-        for part, line, msg in errs:
+        crate_broken = None
+        for part, line, msg, pkg, in_lambda in errs:
             loc = G.locate(linemaps, part, line)
             if loc is None:
                 if "could not compile" in msg or "aborting due to" in msg:
                     continue
-                raise V.Machinery("generated workspace does not build and the error is not inside a generated instance: " + msg[:800])
+                if in_lambda:
+                    # rlib_lambda itself does not compile, or an error inside the macros that cannot be attributed to one instance
+                    crate_broken = crate_broken or msg
+                    continue
+                raise V.Machinery("generated workspace does not build and the error is neither inside a generated instance nor in rlib/lambda: " + msg[:800])
             sid, t, kind = loc
             if kind == "e":
                 raise V.Machinery(f"generator bug: the hand-written explicit version of `{case_of(sid, t)}` does not compile: {msg[:800]}")
             bad.setdefault((sid, t), msg)
+        if not bad and crate_broken:
+            # "the generated closure compiles" fails for every shape: report the smallest one as the case
+            s0, t0_ = min(live, key=lambda x: (len(x[0].caps), x[0].nargs, x[0].sid, x[1]))
+            findings.append({"class": "violation", "what": "rlib_lambda does not compile: no rec_lambda! shape compiles",
+                             "case": case_of(s0.sid, t0_),
+                             "impl": "does not compile (error in rlib/lambda itself): " + " ".join(crate_broken.split())[:600]
+                                     + f" ; replay: python3 tools/c20_gen.py --replay '{case_of(s0.sid, t0_)}' --repo {repo}",
+                             "model": "compiles, result = explicit recursion ; " + model[(s0.sid, t0_)][1][:300]})
+            compile_failures = [((s.sid, t), crate_broken) for s, t in live]
+            live = []
+            break
         if not bad:
-            raise V.Machinery("generated workspace does not build, no error located: " + "\n".join(m for _, _, m in errs)[:800])
+            raise V.Machinery("generated workspace does not build, no error located: " + "\n".join(e[2] for e in errs)[:800])
         for k, msg in sorted(bad.items()):
             compile_failures.append((k, msg))
         live = [(s, t) for s, t in live if (s.sid, t) not in bad]
@@ -194,7 +221,7 @@ def extra(ctx):
             break
     cov["cargo_build_generated_s"] = round(build_s, 2)
     cov["compile_failures"] = len(compile_failures)
-    if compile_failures:
+    if compile_failures and not findings:
         # report the smallest failing shape, after confirming it in a crate of its own
         compile_failures.sort(key=lambda x: (len(by_sid[x[0][0]].caps), by_sid[x[0][0]].nargs, x[0]))
         for (sid, t), msg in compile_failures[:3]:
@@ -209,6 +236,13 @@ def extra(ctx):
                                      + f" ; replay: python3 tools/c20_gen.py --replay '{case_of(sid, t)}' --repo {repo}",
                              "model": "compiles, result = explicit recursion ; " + model[(sid, t)][1][:300]})
             break
+        if not findings:
+            findings.append({"class": "broken", "kind": "correspondence",
+                             "what": f"{len(compile_failures)} generated instances fail to compile inside the workspace but none of the first 3 fails in a crate of its own",
+                             "detail": [case_of(sid, t) + " :: " + " ".join(msg.split())[:300] for (sid, t), msg in compile_failures[:3]]})
+    if not ok and live and not findings:
+        findings.append({"class": "broken", "kind": "correspondence",
+                         "what": "the generated workspace still does not build after 4 rounds of removing failing instances; nothing was run"})
 
     # ---- run: generated vs explicit recursion ---------------------------------------------------------------------
     compared = 0
@@ -229,6 +263,9 @@ def extra(ctx):
                 if crashed:
                     continue            # not reached: the run was given up after too many crashes
                 raise V.Machinery(f"runner printed no result for `{case_of(s.sid, t)}`")
+            if d["E"] == "panic" or d["E"].startswith("crash("):
+                raise V.Machinery(f"generator bug: the hand-written explicit version of `{case_of(s.sid, t)}` panicked/crashed ({d['E'][:120]}); "
+                                  "the templates must not panic, otherwise a panic on both sides would compare equal")
             compared += 1
             key = f"caps={len(s.caps)}"
             hist[key] = hist.get(key, 0) + 1
@@ -252,6 +289,8 @@ def extra(ctx):
                              "model": f"explicit: {(e2 or e)[:500]}"})
             break
     cov["behaviour_differences"] = len(diffs)
+    if ok and live and compared != len(live) and not cov.get("crashed_instances"):
+        raise V.Machinery(f"only {compared} of {len(live)} built instances were compared")
 
     # ---- the Lean semantic model (closureG over the munchers' expansion, evalE) run on the arith-i64 body ------------
     # same shapes, same initial captures, same three calls; compared with what the Rust program printed (minus trace hash)
@@ -299,7 +338,7 @@ def extra(ctx):
                 if problem:
                     exp_mismatch.append((s.sid, t, problem, want))
                     continue
-                pat, rec_tails, rec_lens = w
+                pat, rec_tails, rec_lens, _inner = w
                 exp_compared += 1
                 ncap = len(s.caps)
                 if len(rec_tails) != 1 or any(n != s.nargs + ncap for n in rec_lens) or len(rec_lens) != 3:
@@ -318,11 +357,13 @@ def extra(ctx):
                 if list(s.caps).count(True) >= 2:
                     blk = blocks.get(("g", s.sid, t), "")
                     m1, m2 = [f"&mut c{i}" for i in reversed(s.muts())][:2]
-                    k = blk.rfind("_lambda_name_(")
-                    bad = blk[:k] + blk[k:].replace(m1, "\0").replace(m2, m1).replace("\0", m2)
                     w0, _ = G.wiring_of_expansion({("g", s.sid, t): blk}, s.sid, t)
+                    if not w0:
+                        continue        # unreadable expansion: already reported above as a broken correspondence
+                    k = blk.rfind(w0[3] + "(")
+                    bad = blk[:k] + blk[k:].replace(m1, "\0").replace(m2, m1).replace("\0", m2)
                     w1, _ = G.wiring_of_expansion({("g", s.sid, t): bad}, s.sid, t)
-                    if not w0 or not w1 or w0[0] == w1[0] or w0[0].replace(m1, "\0").replace(m2, m1).replace("\0", m2).split(" clo(")[1] != w1[0].split(" clo(")[1]:
+                    if not w1 or w0[0] == w1[0] or w0[0].replace(m1, "\0").replace(m2, m1).replace("\0", m2).split(" clo(")[1] != w1[0].split(" clo(")[1]:
                         raise V.Machinery(f"self-test of the expansion reader failed on `{case_of(s.sid, t)}`: {w0} / {w1}")
                     cov["expansion_reader_selftest"] = "mis-wired copy detected"
                     st_done = True
